@@ -177,6 +177,8 @@ type c11X struct {
 	allocG  uint64 // bytes allocated (process-wide) while garbage connections were being served
 	lits    int    // literals the server accepted (each may allocate up to the cap at once)
 	gorBase int
+	gorSet  map[string]string
+	recvd   int64 // bytes received on garbage connections
 	lines   int
 	comps   int
 	rounds  int
@@ -265,6 +267,41 @@ func (x *c11X) run() {
 	e.St.Nontrivial = x.lines >= 5 && x.comps >= 1 && x.rounds >= 1
 }
 
+// c11Goroutines lists the live goroutines of the synctest bubble (id -> header and
+// creator).  runtime.NumGoroutine is not used: a goroutine that has just ended leaves
+// the bubble's books (so synctest.Wait returns) before it reaches the free list that
+// NumGoroutine subtracts.
+func c11Goroutines() map[string]string {
+	buf := make([]byte, 1<<18)
+	for {
+		n := runtime.Stack(buf, true)
+		if n < len(buf) {
+			buf = buf[:n]
+			break
+		}
+		buf = make([]byte, 2*len(buf))
+	}
+	out := map[string]string{}
+	for _, blk := range strings.Split(string(buf), "\n\n") {
+		hdr, _, _ := strings.Cut(blk, "\n")
+		if !strings.HasPrefix(hdr, "goroutine ") || !strings.Contains(hdr, "synctest bubble") {
+			continue
+		}
+		id := strings.Fields(hdr)[1]
+		desc := hdr
+		if i := strings.LastIndex(blk, "created by "); i >= 0 {
+			c, _, _ := strings.Cut(blk[i:], "\n")
+			desc += " " + c
+		}
+		lines := strings.Split(blk, "\n")
+		if len(lines) > 1 {
+			desc += " at " + strings.TrimSpace(lines[1])
+		}
+		out[id] = desc
+	}
+	return out
+}
+
 func c11Mem(gc bool) (heap, total uint64) {
 	if gc {
 		runtime.GC()
@@ -284,9 +321,9 @@ func (x *c11X) memCheck(where string) {
 			where, heap>>20, x.heap0>>20, x.sent)
 		return
 	}
-	if bound := 64*uint64(x.sent) + slack + uint64(x.lits)*(32<<20); x.allocG > bound {
-		x.e.FailSig("alloc-total", "allocation out of proportion", "%s: %d MiB allocated while serving the garbage connections for %d bytes sent and %d accepted literals (bound: 64 x sent + 64 MiB + 32 MiB per accepted literal)",
-			where, x.allocG>>20, x.sent, x.lits)
+	if bound := 64*uint64(x.sent+x.recvd) + slack + uint64(x.lits)*(32<<20); x.allocG > bound {
+		x.e.FailSig("alloc-total", "allocation out of proportion", "%s: %d MiB allocated while serving the garbage connections for %d bytes sent, %d bytes answered and %d accepted literals (bound: 64 x (sent + answered) + 64 MiB + 32 MiB per accepted literal)",
+			where, x.allocG>>20, x.sent, x.recvd, x.lits)
 	}
 }
 
@@ -487,7 +524,8 @@ type c11G struct {
 func (x *c11X) open() *c11G {
 	e := x.e
 	x.quiesce("open")
-	x.gorBase = runtime.NumGoroutine()
+	x.gorSet = c11Goroutines()
+	x.gorBase = len(x.gorSet)
 	s, err := e.W.Connect()
 	if err != nil {
 		e.Fail("bystander", "a new connection was not greeted: %v", err)
@@ -885,22 +923,36 @@ func (g *c11G) pull() {
 	b := g.conn.ClientTake()
 	if len(b) > 0 {
 		g.rbuf = append(g.rbuf, b...)
+		g.x.recvd += int64(len(b))
 	}
+	// The trace must not depend on the order in which the server's goroutines reached
+	// the socket: continuation requests are written by the command reader, which works
+	// one command ahead of the responses, and FETCH lines by parallel workers.
+	conts, datas, dataLen := 0, 0, 0
 	for {
 		f, ok := c11Frame(&g.rbuf)
 		if !ok {
-			return
+			break
 		}
 		it := c11Classify(f)
-		g.x.e.Tr.Event("recv", it.kind, it.tag, it.status, len(f))
 		g.x.logf("S %s: %s", g.s.Label, c11Show(f))
-		if it.kind == 0 && it.status == "BYE" {
-			g.bye = true
-		}
-		if it.kind == 0 {
+		switch it.kind {
+		case 0:
+			datas++
+			dataLen += len(f)
+			if it.status == "BYE" {
+				g.bye = true
+			}
 			continue
+		case 2:
+			conts++
+		default:
+			g.x.e.Tr.Event("recv", it.kind, it.tag, it.status, len(f))
 		}
 		g.q = append(g.q, it)
+	}
+	if conts+datas > 0 {
+		g.x.e.Tr.Event("recv+", conts, datas, dataLen)
 	}
 }
 
@@ -1103,7 +1155,15 @@ func (g *c11G) lineEnd() {
 	x, e := g.x, g.x.e
 	x.lines++
 	e.St.Checks++
-	if p, _ := g.lineTag(); p == "*" && g.state == c11Line {
+	if p, _ := g.lineTag(); p == "*" && g.state == c11Idle {
+		// the end of an IDLE tagged "*": its completion looks like untagged data
+		e.St.Probes["star_tag_line"]++
+		if len(g.q) > 0 && g.q[0].kind == 1 && g.q[0].tag == "*" {
+			g.pop()
+		}
+		g.resetLine()
+		return
+	} else if p == "*" && g.state == c11Line {
 		// gluon takes "*" for a tag (the list wildcards are missing from its atom
 		// specials: C10's business) and answers "* OK ...", which no client can tell
 		// from untagged data: such a line is not judged
@@ -1118,6 +1178,15 @@ func (g *c11G) lineEnd() {
 			x.lits++
 			return
 		}
+		if c11IdleRe.Match(g.head) && g.lineLen == len(g.head) && (g.credit > 0 || (len(g.q) > 0 && g.q[0].kind == 2)) {
+			if g.credit > 0 {
+				g.credit--
+			} else {
+				g.pop()
+			}
+			g.state, g.idleTag = c11Idle, "*"
+			return
+		}
 		if len(g.q) > 0 && g.q[0].kind != 2 && ((g.q[0].kind == 1 && g.q[0].tag == "*") || (g.stepping && g.q[0].tag == "")) {
 			g.pop()
 		}
@@ -1127,7 +1196,7 @@ func (g *c11G) lineEnd() {
 	}
 	mayCont := c11LitRe.Match(g.tail) || (c11IdleRe.Match(g.head) && g.lineLen == len(g.head))
 	it := g.pop()
-	for it != nil && it.kind == 2 && !mayCont && len(g.pend) == 0 && x.burst() && g.state == c11Line {
+	for it != nil && it.kind == 2 && !mayCont && len(g.pend) == 0 && x.burst() && g.state != c11Lit {
 		// burst mode: the command reader works one command ahead of the responses, so
 		// the "+" for the last line of the burst may overtake earlier completions
 		g.credit++
@@ -1347,18 +1416,16 @@ func (g *c11G) afterClose() {
 		return
 	}
 	e.St.Checks++
-	n := runtime.NumGoroutine()
-	for i := 0; i < 2000 && n > x.gorBase; i++ {
-		// a goroutine that has just left the bubble may not be on the free list yet
-		runtime.Gosched()
-		n = runtime.NumGoroutine()
-	}
-	if n > x.gorBase {
-		if x.e.W.Cfg.Trace {
-			buf := make([]byte, 1<<16)
-			x.logf("goroutines:\n%s", buf[:runtime.Stack(buf, true)])
+	now := c11Goroutines()
+	if len(now) > x.gorBase {
+		var extra []string
+		for _, id := range core.SortedKeys(now) {
+			if _, ok := x.gorSet[id]; !ok {
+				extra = append(extra, now[id])
+			}
 		}
-		e.FailSig("goroutine-leak", "goroutines left after the connection ended", "connection %s: %d goroutines before it was opened, %d after it ended and the server is quiescent", g.s.Label, x.gorBase, n)
+		e.FailSig("goroutine-leak", "goroutines left after the connection ended", "connection %s: %d goroutines in the bubble before it was opened, %d after it ended and the server is quiescent; new: %s",
+			g.s.Label, x.gorBase, len(now), strings.Join(extra, " | "))
 		return
 	}
 	e.St.Probes["goroutines_back_to_baseline"]++
